@@ -65,6 +65,7 @@ func (c famCase) String() string {
 type famEm struct {
 	e           *asm.Emitter
 	hasBuf      bool
+	capN        int // size of the target it was created over (0: none)
 	parent      int
 	appendedTo  bool     // (a clone) it has been appended to its parent
 	addressable bool     // listing offsets agree with the buffer: a root, or a clone of an emitter that had emitted nothing
@@ -243,7 +244,7 @@ func execFam(c famCase) famRun {
 					return
 				}
 				capN := capOfLabel(o.op.label)
-				ems[o.em] = &famEm{e: asm.NewEmitter(mkTarget(capN), c.text), hasBuf: capN >= 0, parent: -1, addressable: true}
+				ems[o.em] = &famEm{e: asm.NewEmitter(mkTarget(capN), c.text), hasBuf: capN >= 0, capN: max(capN, 0), parent: -1, addressable: true}
 				order = append(order, o.em)
 				acted, res = o.em, "ok"
 			case 'K':
@@ -252,7 +253,7 @@ func execFam(c famCase) famRun {
 					return
 				}
 				capN := capOfLabel(o.op.label)
-				m := &famEm{e: p.e.Clone(mkTarget(capN)), hasBuf: capN >= 0, parent: o.src, addressable: p.addressable && p.e.PC() == p.e.GetBase(),
+				m := &famEm{e: p.e.Clone(mkTarget(capN)), hasBuf: capN >= 0, capN: max(capN, 0), parent: o.src, addressable: p.addressable && p.e.PC() == p.e.GetBase(),
 					poisoned: p.poisoned, nSetBase: p.nSetBase}
 				m.flat = append(append([]string{}, p.flat...), "K")
 				m.res = append(append([]string{}, p.res...), "ok")
@@ -266,14 +267,22 @@ func execFam(c famCase) famRun {
 					return
 				}
 				before := observe(d)
+				// C16: an Append that does not fit the remaining capacity is refused (an emitter without a target has none)
+				need, room := s.e.Len(), d.capN-d.e.Len()
 				if safe(func() { d.e.Append(s.e) }) {
 					res = "refused"
 					if observe(d) != before {
 						complain("C16", fmt.Sprintf("refused Append modified the receiver (%s)", o))
 					}
+					if need <= room {
+						complain("C16", fmt.Sprintf("%s: a fragment of %d byte(s) was refused although the receiver (target of %d bytes) has room for %d", o, need, d.capN, room))
+					}
 					d.poisoned = true
 				} else {
 					res = "ok"
+					if need > room {
+						complain("C16", fmt.Sprintf("%s: an Append that does not fit was accepted: the fragment holds %d byte(s), the receiver (target of %d bytes) had room for %d", o, need, d.capN, room))
+					}
 					fits := isPrefix(append(append([]string{}, d.flat...), "K"), s.flat) && !s.poisoned && !d.poisoned
 					back := fits && s.parent == o.em && !s.appendedTo
 					d.flat = append(append([]string{}, s.flat...), "A")
@@ -461,6 +470,10 @@ func (g *famGen) call() (asmOp, int) {
 		}
 		return asmOp{kind: 'B', data: d}, ln
 	case k < 17:
+		if r.Chance(12) {
+			// comments far longer than a listing line usually is
+			return asmOp{kind: 'C', label: longText([]int{0, 1000 + r.N(101), 1000 + r.N(101), 4096}[r.N(4)], r.N(60))}, 0
+		}
 		return asmOp{kind: 'C', label: "c" + strconv.Itoa(r.N(100))}, 0
 	default:
 		m := findMethod(g.ms, []string{"REP", "SEP"}[r.N(2)])
@@ -560,7 +573,7 @@ func genFamCase(r *prng.R, ms []asmMethod, rep *report.Report) famCase {
 		slot++
 		rep.Count("family: Clone(nil) next to Clone(buffer)")
 	}
-	dryClone := -1
+	dryClone, dryBufClone := -1, -1
 	if dryRoot >= 0 {
 		dryClone = slot
 		clones = append(clones, slot)
@@ -568,6 +581,7 @@ func genFamCase(r *prng.R, ms []asmMethod, rep *report.Report) famCase {
 		slot++
 		if r.Chance(30) {
 			clones = append(clones, slot)
+			dryBufClone = slot
 			c.ops = append(c.ops, famOp{em: slot, src: dryRoot, op: asmOp{kind: 'K', label: capS}})
 			slot++
 		}
@@ -613,6 +627,13 @@ func genFamCase(r *prng.R, ms []asmMethod, rep *report.Report) famCase {
 	}
 	if shared > 1 {
 		rep.Count("family: one clone appended to several emitters")
+	}
+	if dryBufClone >= 0 && r.Chance(70) {
+		// mixed targets: a clone with a buffer is appended to its original that has none (no capacity: refused unless the clone is empty)
+		c.ops = append(c.ops, famOp{em: dryRoot, src: dryBufClone, op: asmOp{kind: 'A'}})
+		o, _ := g.call()
+		c.ops = append(c.ops, famOp{em: dryRoot, op: o})
+		rep.Count("family: clone with a buffer appended to an original without one")
 	}
 	if r.Chance(60) {
 		for i := 0; i < roots; i++ {
